@@ -60,6 +60,11 @@ def configs(tier):
             {"N": 101, "mode": "num_batches", "req": 101, "alpha": "sparse",
              "depth": 3 if tier == "quick" else 4,
              "max_states": 60 if tier == "quick" else 400}]
+    # crops sown from cases
+    wide += [{"N": 3, "mode": "batchsize", "req": 1, "alpha": "full",
+              "depth": 12, "cases": True},
+             {"N": 4, "mode": "num_batches", "req": 2, "alpha": "full",
+              "depth": 12, "cases": True}]
     if tier == "quick":
         return [{"N": n, "mode": m, "req": r, "alpha": "full", "depth": 12}
                 for n, m, r in q] + wide
@@ -108,7 +113,7 @@ class World:
                                  **{self.cfg["mode"]: self.cfg["req"]})
             self.live_kind = "sower"
             self.live_ver = 0
-        self.live.sow_combos(self.combos, verbosity=0)
+        self._sow(self.live)
         self.sown = True
         if self.batches is None:
             self.learn()
@@ -198,6 +203,11 @@ class World:
             ev.append(["badcheck", i, "garbage"])
             if len(self.batches[i]) >= 1:
                 ev.append(["badcheck", i, "short" if i % 2 else "long"])
+        if self.live_ver == self.ver:
+            # a re-sow through the live object asking for another number of
+            # batches than it remembers: refused, nothing changes on disk,
+            # nothing changes in what it reports
+            ev.append(["bad_resow"])
         if not finished:
             # another session sows another function over the (still empty)
             # crop; the live object stays as it is
@@ -360,10 +370,29 @@ class World:
                             "result %d was damaged (%s): check_bad() returned "
                             "%r and changed %r" % (j, how, bad_ids, changed())))
             new_finished.discard(j)
+        elif kind == "bad_resow":
+            before = _stable(fsseam.snapshot(self.d))
+            try:
+                if self.cfg.get("cases"):
+                    self.live.sow_cases(
+                        ["a"], [(v,) for v in self.combos["a"]], verbosity=0,
+                        num_batches=self.B + 1)
+                else:
+                    self.live.sow_combos(self.combos, verbosity=0,
+                                         num_batches=self.B + 1)
+            except ValueError:
+                if _stable(fsseam.snapshot(self.d)) != before:
+                    vio.append((key("refused-but-changed"), "a refused "
+                                "re-sow changed the crop on disk"))
+            else:
+                if _stable(fsseam.snapshot(self.d)) != before:
+                    raise core.HarnessError(
+                        "re-sow with num_batches=B+1 was accepted: not "
+                        "modelled")
         elif kind == "refn":
             self.ver = 1 - self.ver
             self.live.fn = self.fs[self.ver]
-            self.live.sow_combos(self.combos, verbosity=0)
+            self._sow(self.live)
             self.live_ver = self.ver
         elif kind == "resow_other":
             import xyzpy as xyz
@@ -372,10 +401,18 @@ class World:
             other = xyz.Crop(fn=self.fs[self.ver], name=NAME,
                              parent_dir=self.d,
                              **{self.cfg["mode"]: self.cfg["req"]})
-            other.sow_combos(self.combos, verbosity=0)
+            self._sow(other)
         else:
             raise core.HarnessError("unknown event %r" % (ev,))
         return vio, new_finished, tag
+
+    def _sow(self, crop):
+        if self.cfg.get("cases"):
+            # (sown as a list of cases: the same settings, the other entry)
+            crop.sow_cases(["a"], [(v,) for v in self.combos["a"]],
+                           verbosity=0)
+        else:
+            crop.sow_combos(self.combos, verbosity=0)
 
     # ---- invariant --------------------------------------------------------- #
     def check_queries(self, finished, kind):
@@ -479,11 +516,14 @@ def run(ctx):
     for cfg in configs(ctx.tier):
         r = histbfs.bfs(ctx, "expand", cfg, cfg["depth"],
                         max_states=cfg.get("max_states"),
-                        label="N%d%s%d" % (cfg["N"], cfg["mode"][0], cfg["req"]))
+                        label="N%d%s%d%s" % (cfg["N"], cfg["mode"][0],
+                                             cfg["req"],
+                                             "c" if cfg.get("cases") else ""))
         states += r["states"]
         transitions += r["transitions"]
-        per["N=%d %s=%d (%s)" % (cfg["N"], cfg["mode"], cfg["req"],
-                                 cfg["alpha"])] = r
+        per["N=%d %s=%d (%s%s)" % (cfg["N"], cfg["mode"], cfg["req"],
+                                   cfg["alpha"], ", sown from cases"
+                                   if cfg.get("cases") else "")] = r
         if not r["fixpoint"]:
             ctx.exhaustive = False
     ctx.coverage_extra.update({
